@@ -4,9 +4,14 @@ block of §6 (the false alarms that remain), from /verif/keeps/*/meta.json and n
 import glob, json, os, re
 K = "/verif/keeps"
 first = json.load(open(K + "/FIRSTPASS.json"))["results"]
+if os.path.exists(K + "/FIRSTPASS2.json"):
+    first.update(json.load(open(K + "/FIRSTPASS2.json"))["results"])
 rows, limits = [], []
 tot = silent = 0
-for d in sorted(glob.glob(K + "/C??-k*")):
+def knum(d):
+    b = os.path.basename(d)
+    return (b[:3], int(b.split("-k")[1]))
+for d in sorted(glob.glob(K + "/C??-k*"), key=knum):
     kid = os.path.basename(d)
     mp = d + "/meta.json"
     if not os.path.exists(mp):
